@@ -6,11 +6,13 @@
    lib_clean    = the library performed no write outside a live block, no over-read, no free of a
                   dead / caller-allocated / handed-over block
    chunks_ok    = every chunk stored through the jchuff.c STORE_BUFFER protocol is < BUFSIZE bytes *)
-From Coq Require Import List ZArith.
+From Coq Require Import List ZArith Bool.
 From LJT Require Import gen.GenDest model.Dest model.WorstCase proofs.DestProofs proofs.DestLeak proofs.DestChunk proofs.WorstCaseProofs.
 From LJT Require Import gen.GenXformIcc model.XformIcc proofs.XformIccProofs proofs.WorstCaseBound.
+From LJT Require Import gen.GenEncoders model.Huff proofs.EncoderBounds proofs.DestGrowth.
 Import ListNotations.
 Local Open Scope Z_scope.
+Local Open Scope bool_scope.
 
 (* (1) for ALL producers and ALL histories (initial capacities NULL, 0, 1, exactly full, reuse ...) *)
 Theorem C13_never_overruns : forall c hs, good_cfg c ->
@@ -154,6 +156,84 @@ Print Assumptions C13_block_bits_bound.
 Theorem C13_block_chunk_below_bufsize : max_block_chunk < huff_local_bufsize.
 Proof. exact block_chunk_below_bufsize. Qed.
 Print Assumptions C13_block_chunk_below_bufsize.
+
+(* ---- producers of every entropy encoder ------------------------------------------------------------ *)
+(* marker writer, arithmetic, progressive Huffman and lossless Huffman encoders store single bytes
+   (shapes read from the source): their producers need NO chunk hypothesis *)
+Theorem C13_bytewise_encoders_safe :
+  (enc_marker_writer_bytewise && enc_arith_bytewise && enc_phuff_bytewise && enc_lhuff_bytewise = true) /\
+  forall c hs, good_cfg c -> w_ok (run c hs) = true -> forallb hop_bytewise hs = true -> lib_clean (run c hs) = true.
+Proof. exact bytewise_encoders_safe. Qed.
+Print Assumptions C13_bytewise_encoders_safe.
+
+(* jchuff.c with ANY table jpeg_make_c_derived_tbl accepts (optimised, custom): code lengths <= 16 ... *)
+Theorem C13_huff_table_lengths : forall bits vals maxsym t, make_c_derived bits vals maxsym = Some t -> all_le16 t = true.
+Proof. exact make_c_derived_le16. Qed.
+Print Assumptions C13_huff_table_lengths.
+
+(* ... so one block of coefficients that pass the range checks for max_coef_bits = P costs at most
+   (16 + P + 1) + 63 (16 + P) + 16 bits ... *)
+Theorem C13_block_bits_bound_any_table : forall dc ac P last_dc coefs bs, all_le16 dc = true -> all_le16 ac = true -> 0 <= P ->
+  coef_ok_P P last_dc coefs -> enc_block dc ac last_dc coefs = Some bs -> Z.of_nat (length bs) <= block_bits_max P.
+Proof. exact block_bits_bound_gen. Qed.
+Print Assumptions C13_block_bits_bound_any_table.
+
+(* ... and for every lossy precision of the build (8, 12; P = precision + 2), with the pending bits of the
+   64-bit put buffer and a stuffed zero behind every byte, a block stores fewer bytes than BUFSIZE *)
+Theorem C13_huff_chunks_below_bufsize : forallb (fun p => chunk_max p <? huff_local_bufsize) huff_lossy_precisions = true.
+Proof. exact huff_chunks_below_bufsize. Qed.
+Print Assumptions C13_huff_chunks_below_bufsize.
+
+(* ---- growth arithmetic --------------------------------------------------------------------------------- *)
+(* jpeg_mem_dest[_tj] arms the cursor inside the buffer after every history ... *)
+Theorem C13_armed_invariant : forall c hs alloc, good_cfg c ->
+  w_ok (run c hs) = true -> forallb hop_chunks_ok hs = true ->
+  let w := run c hs in
+  pass_ok c alloc w = true -> zero_reuse c alloc w = false ->
+  match mem_dest c alloc (set_cur (w_buf w) w) with
+  | (w1, None) => exists d1, w_dest w1 = Some d1 /\ J (w_heap w1) (w_cur w1) (w_buf w1) d1 [] /\
+                    d_next_off d1 = 0 /\ d_free d1 = d_bufsize d1 /\ cursor_inside (w_heap w1) d1
+  | (w1, Some st) => st = StBufSize /\ eff_alloc c alloc = false
+  end.
+Proof. exact armed_invariant. Qed.
+Print Assumptions C13_armed_invariant.
+
+(* ... every producer step keeps next_output_byte / free_in_buffer inside the current allocation
+   (offset + free = bufsize <= size of the live block), error exits included ... *)
+Theorem C13_cursor_inside_allocation : forall m ops w d wr,
+  J (w_heap w) (w_cur w) (w_buf w) d wr -> forallb chunk_ok ops = true ->
+  match run_ops m ops w d with (w', d', _) => cursor_inside (w_heap w') d' end.
+Proof. exact cursor_inside_all. Qed.
+Print Assumptions C13_cursor_inside_allocation.
+
+(* ... bufsize <= max(initial capacity, 2 * bytes stored), so `bufsize * 2` cannot wrap in size_t *)
+Theorem C13_growth_bounded : forall m ops w d, d_next_off d = 0 -> 0 <= d_free d -> 0 <= d_bufsize d ->
+  forallb chunk_ok ops = true ->
+  match run_ops m ops w d with
+  | (_, d', _) => d_bufsize d' <= Z.max (d_bufsize d) (2 * d_next_off d') /\ 0 <= d_next_off d'
+  end.
+Proof. exact growth_bounded_all. Qed.
+Print Assumptions C13_growth_bounded.
+
+Theorem C13_doubling_never_wraps : forall m ops w d, d_next_off d = 0 -> 0 <= d_free d -> 0 <= d_bufsize d < 2 ^ 63 ->
+  forallb chunk_ok ops = true ->
+  match run_ops m ops w d with
+  | (_, d', _) => d_next_off d' < 2 ^ 62 -> d_bufsize d' * growth m < SIZE_T_MOD
+  end.
+Proof. exact doubling_never_wraps. Qed.
+Print Assumptions C13_doubling_never_wraps.
+
+(* the constants and rule flags of the model are the generated ones *)
+Theorem C13_source_facts :
+  out_buf_size TJ = tj_output_buf_size /\ out_buf_size IJG = ijg_output_buf_size /\
+  growth TJ = tj_growth /\ growth IJG = ijg_growth /\ tj_growth = 2 /\ ijg_growth = 2 /\
+  0 < tj_output_buf_size /\ 0 < ijg_output_buf_size /\
+  cf_clr cfg_tj = tj_clears_newbuffer /\ cf_zfix cfg_tj = tj_zero_size_keeps_reused /\
+  cf_rebind cfg_tj = tj_rebinds_out_always /\ cf_rebind cfg_ijg = ijg_rebinds_out_always /\
+  tj_clears_newbuffer = true /\ tj_rebinds_out_always = true /\ ijg_rebinds_out_always = true /\
+  icc_max_data = icc_max_bytes_in_marker - icc_overhead_len.
+Proof. exact source_facts. Qed.
+Print Assumptions C13_source_facts.
 
 (* (6b) worst-case size + ICC for tj3Transform: the ICC term of tj3TransformBufSize() (conditions
    translated from the source on every run) is at least the ICC payload tj3Transform() writes, for
